@@ -114,6 +114,9 @@ type SocialWrappedCallbacks struct {
 // If the given functions have a type that collides with the default behavior,
 // then disable our default behavior
 func (w SocialWrappedCallbacks) callbacks(fns []interface{}) []interface{} {
+	// The slice belongs to the application, which may hand the same one to
+	// every request: never append into its spare capacity.
+	fns = fns[:len(fns):len(fns)]
 	enableCreate := true
 	enableUpdate := true
 	enableDelete := true
